@@ -37,15 +37,19 @@ Inv_InterfacesExact == k = "InterfacesExact" => InterfacesExact(H, O)
 Inv_Topological == k = "Topological" => Topological(H, O)
 Inv_ModelTypeDown == k = "ModelTypeDown" => ModelTypeDown(H, O)
 
-\* non-vacuity counters (evaluated once, printed): accepted observations, those with a diamond, those where
-\* some class has both inherited and own members; and what the source-level reading expects to be refused
+\* non-vacuity counters (evaluated once, printed): accepted observations, those where some class has an
+\* ancestor, those with a diamond; and the comparison with the source-level reading: MayRefuse lists the
+\* reasons for which a hierarchy of the case space may be refused (a constructor assigning a property twice
+\* may be refused or not).  A *generated* hierarchy (gen = TRUE) without any such reason that is not accepted
+\* means that a part of the case space is silently not being checked (the harness exits 2 on that).
 Accepted == {n \in 1..Len(Obs) : Obs[n].outcome = "accepted"}
 NonTrivial(n) == \E c \in Ids(Obs[n].h) : Ancestors(Obs[n].h, c) # {}
-ExpectRefused(n) == ~Acyclic(Obs[n].h) \/ ~ModelTypeConsistentSource(Obs[n].h) \/ MethodClash(Obs[n].h)
+MustRefuse(n) == ~Acyclic(Obs[n].h) \/ ~ModelTypeConsistentSource(Obs[n].h) \/ MethodClash(Obs[n].h)
+MayRefuse(n) == MustRefuse(n) \/ WrittenTwice(Obs[n].h)
 ASSUME PrintT(<<"@@PRINT@@ counts", Len(Obs), Cardinality(Accepted),
                 Cardinality({n \in Accepted : NonTrivial(n)}),
                 Cardinality({n \in Accepted : HasDiamond(Obs[n].h)}),
-                Cardinality({n \in 1..Len(Obs) : ExpectRefused(n)}),
-                Cardinality({n \in 1..Len(Obs) : ExpectRefused(n) /\ Obs[n].outcome = "accepted"}),
-                Cardinality({n \in 1..Len(Obs) : ~ExpectRefused(n) /\ Obs[n].outcome # "accepted"})>>)
+                Cardinality({n \in 1..Len(Obs) : MustRefuse(n)}),
+                Cardinality({n \in 1..Len(Obs) : MustRefuse(n) /\ Obs[n].outcome = "accepted"}),
+                Cardinality({n \in 1..Len(Obs) : Obs[n].gen /\ ~MayRefuse(n) /\ Obs[n].outcome # "accepted"})>>)
 ====
